@@ -41,11 +41,15 @@ def roland_payload():
                2: {"name": "ELSE", "chain": [5], "points": [0, 0, 99, 0, 99], "mode": 0, "seq": 3},
                3: {"name": "CONT", "chain": [7, 8, 9], "points": [0, 0, 13000, 0, 13000], "mode": 2, "seq": 4},
                # leading-cluster offset > 0 and referenced from both performances (realised again by `ls VOL/PERF1`)
-               4: {"name": "TOP", "chain": [12, 10, 11], "cluster_top": 1, "points": [3, 3, 9000, 3, 9000], "mode": 2, "seq": 5}}
+               4: {"name": "TOP", "chain": [12, 10, 11], "cluster_top": 1, "points": [3, 3, 9000, 3, 9000], "mode": 2, "seq": 5},
+               # two samples living in ONE fragmented chain (same first cluster), told apart by their leading-cluster offset
+               5: {"name": "HALFA", "chain": [13, 16, 14, 17], "cluster_top": 0, "points": [0, 0, 9000, 0, 9000], "mode": 2, "seq": 6},
+               6: {"name": "HALFB", "chain": [13, 16, 14, 17], "cluster_top": 2, "points": [1, 1, 9001, 1, 9001], "mode": 2, "seq": 6}}
     model = {"volumes": [{"name": "VOL", "perfs": [0, 1]}],
              "performances": {0: {"name": "PERF0", "patches": [0]}, 1: {"name": "PERF1", "patches": [1]}},
-             "patches": {0: {"name": "PATCH0", "partials": [0]}, 1: {"name": "PATCH1", "partials": [1]}},
-             "partials": {0: {"name": "PART0", "samples": [0, 1, 3, 4]}, 1: {"name": "PART1", "samples": [2, 4]}},
+             "patches": {0: {"name": "PATCH0", "partials": [0, 2]}, 1: {"name": "PATCH1", "partials": [1]}},
+             "partials": {0: {"name": "PART0", "samples": [0, 1, 3, 4]}, 1: {"name": "PART1", "samples": [2, 4, 6]},
+                          2: {"name": "PART2", "samples": [5]}},   # the two halves are reached through different performances
              "samples": samples}
     return R.build_roland(model)[0]
 
@@ -223,6 +227,10 @@ def configs(quick):
         P(R4, ("read", 4096), ("read", CL), ("read", 4096)),
         {"path": [], "ops": [["ls", "VOL/PERF1"], ["ls", "VOL/PERF1/TOP"]], "stepwise": True},
         P(("VOL", "PERF1", "TOP"), ("read", 2), ("read", 4096))]})
+    HA, HB = ("VOL", "PERF0", "HALFA"), ("VOL", "PERF1", "HALFB")
+    out.append({"name": "roland:two-samples-one-chain", "kind": "roland", "parts": [
+        P(HA, ("read", 4096), ("read", CL), ("read", 4096)), P(HB, ("read", 2), ("read", CL + 1), ("read", 4096)),
+        P(R0, ("read", 4096), ("read", 4096))]})
     T1, T2, T3 = ("ONE",), ("TWO",), ("THREE",)
     out.append({"name": "cdda:3x2", "kind": "cdda", "parts": [
         P(T1, ("read", 4096), ("read", 2352 + 1)), P(T2, ("read", 1), ("read", 4096)), P(T3, ("seek", 2352), ("read", 4096))]})
@@ -237,7 +245,7 @@ class Check(CheckBase):
     title = "Sample streams sharing one image file handle do not disturb one another"
     rule = ("per configuration (AKAI raw and inside MODE1/2352: two files of one partition, one fragmented, one file of a "
             "second partition, an L/R pair through the transcoder, lazy directory listings; Roland: forward + reverse-mode "
-            "sample + listing of another performance; CDDA: three tracks): ALL interleavings of the participants' call programs "
+            "sample + listing of another performance, a shared sample with a leading-cluster offset, two samples living in one fragmented chain; CDDA: three tracks): ALL interleavings of the participants' call programs "
             "(block reads of 1, 2, 4096, sector-1, sector+1 bytes, sector-aligned reads of a contiguous file that end "
             "exactly on a sector boundary, absolute seeks, ls of unrealised directories, transcoder "
             "steps) on one fresh image object per schedule; thorough adds 3x3-step programs over all 25 block-size pairs. "
